@@ -51,6 +51,7 @@ type Outcome struct {
 // Exec runs the check once on the given tape.
 func (c *Check) Exec(t *testing.T, tape *Tape, trace bool) (out *Outcome) {
 	e := newEnv(t, tape, trace)
+	tape.OnOverrun = func() { e.Infra("replayed tape overrun: a harness loop does not terminate on zero draws") }
 	body := func(t *testing.T) {
 		e.T = t
 		defer func() {
